@@ -81,8 +81,11 @@ class GenericContextProvider(RoleProvider):
         modified_entities = []
         with self._mdib.context_state_transaction() as mgr:
             for proposed_st in proposed_context_states:
-                entity = self._mdib.entities.by_handle(proposed_st.DescriptorHandle)
-                modified_entities.append(entity)
+                # use only one entity per context descriptor, otherwise changes of multiple states would overwrite each other
+                entity = next((e for e in modified_entities if e.handle == proposed_st.DescriptorHandle), None)
+                if entity is None:
+                    entity = self._mdib.entities.by_handle(proposed_st.DescriptorHandle)
+                    modified_entities.append(entity)
                 old_state_container = None
                 if proposed_st.DescriptorHandle != proposed_st.Handle:
                     # this is an update for an existing state or a new one
@@ -119,14 +122,15 @@ class GenericContextProvider(RoleProvider):
                         old_state_container.ContextAssociation == pm_types.ContextAssociation.ASSOCIATED
                         and proposed_st.ContextAssociation != pm_types.ContextAssociation.ASSOCIATED
                     ):
-                        proposed_st.UnbindingMdibVersion = mgr.new_mdib_version
-                        proposed_st.BindingEndTime = time.time()
+                        # set these in old_state_container, they are not copied from proposed_st below
+                        old_state_container.UnbindingMdibVersion = mgr.new_mdib_version
+                        old_state_container.BindingEndTime = time.time()
                     elif (
                         old_state_container.ContextAssociation != pm_types.ContextAssociation.ASSOCIATED
                         and proposed_st.ContextAssociation == pm_types.ContextAssociation.ASSOCIATED
                     ):
-                        proposed_st.BindingMdibVersion = mgr.new_mdib_version
-                        proposed_st.BindingStartTime = time.time()
+                        old_state_container.BindingMdibVersion = mgr.new_mdib_version
+                        old_state_container.BindingStartTime = time.time()
                         handles = self._mdib.xtra.disassociate_all(
                             entity,
                             unbinding_mdib_version=mgr.new_mdib_version,
